@@ -18,3 +18,83 @@ harnesses! {
         assert!(n == CUM[(m - 1) as usize] + d, "C17:day_of_year = calendar");
     }
 }
+
+pub mod sched {
+use super::*;
+
+fn week(id: u128, d1: u128, d2: u128, c1: u32) -> ScheduleWeek {
+    ScheduleWeek { id: uid(id), name: String::new(), values: vec![(uid(d1), c1), (uid(d2), 7 - c1)] }
+}
+
+harnesses! {
+    /// yearly schedule -> days: as many days as the period lengths add up to; day i takes slot (i mod 7)
+    /// of the weekly schedule of the period it falls in (year starts on a Monday)
+    #[kani::unwind(9)]
+    #[kani::stub(alloc::fmt::format, crate::stubs::fmt_stub)]
+    fn year_as_days(s) {
+        let c1 = s.u32();
+        let c2 = s.u32();
+        s.assume(c1 <= 7 && c2 <= 7);
+        let (n1, n2) = (s.u32(), s.u32());
+        s.assume(n1 <= 4 && n2 <= 4);
+        let second_week_missing = s.bool();
+        let db = SchedulesDb {
+            year: vec![Schedule { id: uid(20), name: String::new(), values: vec![(uid(10), n1), (if second_week_missing { uid(99) } else { uid(11) }, n2)] }],
+            week: vec![week(10, 1, 2, c1), week(11, 3, 4, c2)],
+            day: Vec::new(),
+        };
+        let days = db.get_year_as_day_sch(uid(20));
+        cover!(n1 == 4 && n2 == 4 && !second_week_missing, "eight days over two periods");
+        cover!(n1 == 3 && c2 == 2 && n2 >= 1, "second period starts mid-week");
+        if !second_week_missing {
+            assert!(days.len() as u32 == n1 + n2, "C17:a yearly schedule expands to as many days as its period lengths add up to");
+            let mut i = 0u32;
+            while i < n1 + n2 {
+                let slot = i % 7;
+                let want = if i < n1 { if slot < c1 { 1 } else { 2 } } else { if slot < c2 { 3 } else { 4 } };
+                assert!(days[i as usize].as_u128() == want, "C17:day i takes weekday slot i mod 7 of the weekly schedule of its period");
+                i += 1;
+            }
+        } else {
+            assert!(days.len() as u32 == n1, "C17:a period whose weekly schedule is missing contributes no days");
+        }
+        assert!(db.get_year_as_day_sch(uid(21)).is_empty(), "C17:unknown yearly schedule expands to nothing");
+        std::mem::forget(db);
+        std::mem::forget(days);
+    }
+
+    /// weekly schedule -> runs covering the count of days given
+    #[kani::unwind(9)]
+    fn week_to_days(s) {
+        let c1 = s.u32();
+        s.assume(c1 <= 7);
+        let w = week(10, 1, 2, c1);
+        let d = w.to_day_sch();
+        cover!(c1 == 3, "3 + 4 split");
+        assert!(d.len() == 7, "C17:weekly runs cover 7 days");
+        let mut i = 0;
+        while i < 7 {
+            assert!(d[i].as_u128() == if (i as u32) < c1 { 1 } else { 2 }, "C17:weekly runs in order");
+            i += 1;
+        }
+        std::mem::forget(w);
+        std::mem::forget(d);
+    }
+
+    /// HULC end dates -> periods: the day counts derived from day_of_year partition the 365-day year exactly
+    fn end_dates_partition(s) {
+        // increasing list of 3 end dates, the last one 31 Dec (as in schedules_from_bdl: t = [0, doy(d1,m1), doy(d2,m2), 365])
+        let (m1, d1, m2, d2) = (s.u32(), s.u32(), s.u32(), s.u32());
+        s.assume(m1 >= 1 && m1 <= 12 && m2 >= 1 && m2 <= 12);
+        s.assume(d1 >= 1 && d1 <= MDAYS[(m1 - 1) as usize] && d2 >= 1 && d2 <= MDAYS[(m2 - 1) as usize]);
+        s.assume(m1 < m2 || (m1 == m2 && d1 < d2));
+        s.assume(!(m2 == 12 && d2 == 31));
+        let t = [0u32, day_of_year(d1, m1), day_of_year(d2, m2), day_of_year(31, 12)];
+        cover!(m1 == 2 && d1 == 28 && m2 == 3 && d2 == 1, "28 Feb / 1 Mar");
+        let (a, b, c) = (t[1] - t[0], t[2] - t[1], t[3] - t[2]);
+        assert!(a >= 1 && b >= 1 && c >= 1, "C17:every period has at least one day");
+        assert!(a + b + c == 365, "C17:end dates partition the 365-day year exactly");
+        assert!(a == CUM[(m1 - 1) as usize] + d1, "C17:first period ends exactly at its end date");
+    }
+}
+}
